@@ -221,3 +221,77 @@ def check(db, rep):
         r4.ok('SaveOperationResult', 'success clears broken/outdated and updates every child', '%s:%d' % (sv.file, sv.line))
     else:
         r4.violation('SaveOperationResult', '%s:%d' % (sv.file, sv.line), 'a stored result does not clear the broken/outdated flags or does not update every child operation')
+    _r5(db, rep)
+
+
+def _r5(db, rep):
+    from engine.cfgq import transitive_calls
+    from engine.shape import Keyer
+    r5 = rep.rule('r5', 'SUSPEND-SCOPE / REINDEX: notifications are suspended only around storing an operation\'s own result (no operand synchronisation or nested execution under the guard); '
+                        'erasing a node renumbers every stored index in every adjacency list', 3)
+    SYNC = (O + 'ossSourceFacet::UpdateSync', OPF + '::Execute', OPF + '::PrepareParents', OPF + '::CallFor', OPF + '::RunOperation')
+    sites = []
+    for f in db.functions:
+        if not f.has_cfg() or not f.file or '/test/' in f.file:
+            continue
+        for p, n in call_sites(f, lambda n: (n.get('cs') or '').endswith('::DndGuard') and 'oss' in (f.name or '')):
+            sites.append((f, p, n))
+    allowed = {OPF + '::SaveOperationResult'}
+    for f, p, n in sites:
+        inst = 'DndGuard@' + f.name.split('::')[-1]
+        if f.name not in allowed:
+            r5.violation(inst, f.loc(n), 'notifications are suspended in %s; only SaveOperationResult (which rewrites the operation\'s own result) may do so' % f.name.split('::')[-1])
+            continue
+        reach = f.reach(p)
+        bads = []
+        for c in f.calls():
+            cp = f.position_of(c)
+            if cp is None or cp not in reach or c is n or (c.get('cs') or '').endswith('ossSourceFacet::InputData'):
+                continue          # InputData stores the operation's own result: the one write the guard exists for
+            for t in db.callees(f, c):
+                if t.name in SYNC:
+                    bads.append((c, 'operand synchronisation'))
+                elif transitive_calls(db, t, lambda x: (x.get('cs') or '') in SYNC, depth=5):
+                    bads.append((c, 'operand synchronisation'))
+        seen_b = set()
+        for c, what in bads:
+            key = ((c.get('cs') or '').split('::')[-1], what)
+            if key in seen_b:
+                continue
+            seen_b.add(key)
+            r5.violation('%s:%s' % (inst, key[0]), f.loc(c), 'while notifications are suspended `%s` reaches %s: the change announcement of an operand synchronised there is lost and its other children keep reporting done' % (c.get('txt', '')[:40], what))
+        if not bads:
+            r5.ok(inst, 'only the own result is written under the guard', f.loc(n))
+    if not sites:
+        r5.broken('no DndGuard site found')
+    # who else can run synchronisation under a guard held by a caller: Execute must not hold one
+    er = db.fn(O + 'ossGraphFacet::Erase')
+    K = Keyer(er)
+    fe = [n for n in er.calls() if n.get('cs') == 'std::for_each']
+    rf = [n for n in er.walk() if n['k'] == 'CXXForRangeStmt']
+    outer = None
+    for n in fe:
+        a0 = er.stmts[n['args'][0]]
+        if any(x.get('member') == 'graph' for x in er.walk(a0)):
+            outer = n
+    if outer is None and not any(any(x.get('member') == 'graph' for x in er.walk(er.stmts[l['range']])) for l in rf):
+        r5.broken('ossGraphFacet::Erase: renumbering loop over `graph` not recognised')
+    elif outer is not None:
+        def whole(n, name):
+            x = er.strip(n)
+            return x['k'] == 'CallExpr' and x.get('cs') in ('std::' + name,) and er.strip(er.stmts[x['args'][0]]).get('member') == 'graph' or \
+                (x['k'] == 'CXXMemberCallExpr' and (x.get('cs') or '').split('::')[-1] == name and er.strip(er.stmts[x['obj']]).get('member') == 'graph')
+        if whole(er.stmts[outer['args'][0]], 'begin') and whole(er.stmts[outer['args'][1]], 'end'):
+            r5.ok('ossGraphFacet::Erase:renumber', 'every adjacency list from begin(graph) to end(graph) is renumbered', er.loc(outer))
+        else:
+            r5.violation('ossGraphFacet::Erase:renumber', er.loc(outer), 'only part of the adjacency lists is renumbered after a node is erased (`%s` .. `%s`): a list stored before the erased position keeps a stale index and silently points at another pictogram' % (
+                er.stmts[outer['args'][0]].get('txt', '')[:40], er.stmts[outer['args'][1]].get('txt', '')[:30]))
+    else:
+        r5.ok('ossGraphFacet::Erase:renumber', 'range-for over the whole graph', '%s:%d' % (er.file, er.line))
+    # the same position is erased from both parallel vectors
+    erases = [n for n in er.calls() if (n.get('cs') or '').split('::')[-1] == 'erase' and 'obj' in n and er.strip(er.stmts[n['obj']]).get('member') in ('graph', 'items')]
+    keys = {er.strip(er.stmts[n['obj']]).get('member'): repr(K.key(er.stmts[n['args'][0]])).replace("'graph'", "'V'").replace("'items'", "'V'") for n in erases if n.get('args')}
+    if set(keys) == {'graph', 'items'} and keys['graph'] == keys['items']:
+        r5.ok('ossGraphFacet::Erase:parallel', 'the same position is erased from graph and items', '%s:%d' % (er.file, er.line))
+    else:
+        r5.violation('ossGraphFacet::Erase:parallel', '%s:%d' % (er.file, er.line), 'graph and items are parallel vectors: erasing different positions (or only one of them) shifts every later pictogram onto another node\'s edges')
